@@ -207,7 +207,14 @@ def _work_random(args):
         cnt[0] += 1
         if found and time.time() - t_first[0] > 20:
             return  # bound the shrink phase: nothing smaller will be accepted any more
-        fs = _eval_cases(prop, [case], st, sample_every=max(1, n // 3))
+        try:
+            fs = _eval_cases(prop, [case], st, sample_every=max(1, n // 3))
+        except MemoryError:
+            # the reference (NumPy) side ran into the worker's address-space limit on this case: not judged, counted
+            st.rejected["reference_memory_limit"] = st.rejected.get("reference_memory_limit", 0) + 1
+            import gc
+            gc.collect()
+            return
         if fs:
             if not found:
                 t_first[0] = time.time()
@@ -220,7 +227,8 @@ def _work_random(args):
         pass
     except BaseException as e:  # hypothesis internal errors
         if not found:
-            return st, [({"_harness": True}, "HARNESS-ERROR hypothesis: %r" % (e,), {})]
+            tb = traceback.format_exc().strip().splitlines()
+            return st, [({"_harness": True}, "HARNESS-ERROR hypothesis: %r | %s" % (e, " / ".join(l.strip() for l in tb[-8:])[:700]), {})]
     # last recorded failure is the shrunk one
     return st, ([found[-1]] if found else [])
 
